@@ -807,3 +807,39 @@ Example rate_divisor_examples :
   map (fun d => Qcompare (whole_seconds_q d) (range_seconds_q d)) [1500000000; 500000000; 60000000000] = [Datatypes.Lt; Datatypes.Lt; Datatypes.Eq] /\
   map (fun d => Qcompare (whole_ms_seconds_q d) (range_seconds_q d)) [1500000000; 1500000; 999000] = [Datatypes.Eq; Datatypes.Lt; Datatypes.Lt].
 Proof. split; [vm_compute; reflexivity|]. split; vm_compute; reflexivity. Qed.
+
+(* ---------------------------------------------------------------------------------------------------------------- *)
+(* Round 7: a `| drop` stage that names one label several times (`| drop level="debug", level="info"`, `| drop level, level="x"`).
+   On both engines the stage is the conjunction over ALL its parameters: the in-process DropPlanner (model drop_hit, the walk of
+   planner_drop.go over every parameter for every label) removes a label exactly when SOME parameter hits it, and the ClickHouse
+   stage (C07's reference drop_keeps: one conjunct `(k, v) != (name, value)` per parameter) keeps it exactly when NO parameter
+   hits it -- for every parameter list, repeated names included. *)
+From Qryn Require Import proofs.InternalEngineDropProofs.
+
+Theorem drop_is_the_conjunction_over_all_parameters_on_both_engines : forall (ps : list (string * option string)) (k v : string),
+  InternalEngine.drop_hit k v (InternalEngineSql.drop_names ps) (InternalEngineSql.drop_vals ps) = existsb (param_hits k v) ps /\
+  SqlEval.drop_keeps (map LogqlSem.drop_spec ps) (k, v) = forallb (fun p => negb (param_hits k v p)) ps.
+Proof. intros ps k v. split; [exact (in_process_drop_is_any_parameter ps k v) | exact (sql_drop_is_every_parameter ps k v)]. Qed.
+Print Assumptions drop_is_the_conjunction_over_all_parameters_on_both_engines.
+
+(* a table holding ONE value per name (the last parameter that names the label: a Go map filled in a loop, seed C09-g) is that
+   conjunction exactly as long as no name is repeated -- a generator that names every label once cannot tell the two apart -- *)
+Theorem one_value_per_name_is_right_without_repeats : forall (ps : list (string * option string)) (k v : string),
+  NoDup (map fst ps) -> drop_hit_one_per_name k v ps = existsb (param_hits k v) ps.
+Proof. exact InternalEngineDropProofs.one_value_per_name_is_right_without_repeats. Qed.
+Print Assumptions one_value_per_name_is_right_without_repeats.
+
+(* ... and wrong with a repeat: level="debug" survives `| drop level="debug", level="info"` in the table, on neither engine *)
+Theorem one_value_per_name_refuted :
+  let ps := [("level", Some "debug"); ("level", Some "info")]%string in
+  drop_hit_one_per_name "level" "debug" ps = false
+  /\ InternalEngine.drop_hit "level" "debug" (InternalEngineSql.drop_names ps) (InternalEngineSql.drop_vals ps) = true
+  /\ SqlEval.drop_keeps (map LogqlSem.drop_spec ps) ("level", "debug")%string = false
+  /\ drop_hit_one_per_name "level" "info" ps = true.
+Proof. exact InternalEngineDropProofs.one_value_per_name_refuted. Qed.
+Print Assumptions one_value_per_name_refuted.
+
+Example drop_repeat_free_stage :
+  let ps := [("level", Some "debug"); ("pod", None)]%string in
+  NoDup (map fst ps) /\ drop_hit_one_per_name "level" "debug" ps = true /\ existsb (param_hits "pod" "p1") ps = true.
+Proof. exact InternalEngineDropProofs.repeat_free_stage. Qed.
